@@ -192,6 +192,25 @@ func elemWith(et fl.Type, st *fl.TStruct, v int64) fl.Expr {
 	return fl.L(et.(fl.TInt), v)
 }
 
+// Bases returns index-pattern programs (in range, N=3, i32) as bases for C09.
+func Bases(quick bool) []*prog.Case {
+	var out []*prog.Case
+	seq := 900000
+	for _, pat := range []string{"literal", "const", "let", "let-reassigned-before", "let-reassigned-after", "if-one-branch-taken", "if-both-branches", "compound-add", "incdec", "neg-div", "neg-rem"} {
+		for _, acc := range []string{"read", "write"} {
+			for _, k := range []int64{-1, 0, 2} {
+				s := spec{pat, acc, 3, k, "i32"}
+				seq++
+				p, ok := build(s, fmt.Sprintf("_%d", seq))
+				if ok {
+					out = append(out, &prog.Case{ID: s.id(), P: p, Want: fl.Run(p)})
+				}
+			}
+		}
+	}
+	return out
+}
+
 func Run(c *vl.Ctx) {
 	quick := c.Quick()
 	ns := []int{3}
